@@ -4,7 +4,13 @@
 //	                m = c (ScanComments) | n;  stdout: "<result>\t<verdict>"
 //	                result  = "tok@pos:lithex ... |off off ..."  (EOF token included; error offsets in report order),
 //	                          PANIC or HANG
-//	                verdict = the C15 clauses evaluated on the real result (d = x only; "-" otherwise)
+//	                verdict, computed on the real scanners only:
+//	                  d = x: the C15 clauses evaluated on the result ("ok" or the clause that fails)
+//	                  d = g: go/scanner against the XGo scanner on the same source and mode (C16):
+//	                         ext | eq | eqset | diff-tokens | diff-errors
+//	                  d = t: tpl/scanner against the XGo scanner (C32), token kinds mapped by String():
+//	                         unshared | eq | eqtok | diff, followed by the finding-set dimensions the
+//	                         source belongs to (dim-unit dim-sharp dim-blockcr)
 //	h_scan unicode  stdout: "L lo hi" / "D lo hi" maximal ranges of unicode.IsLetter / unicode.IsDigit above 0x7f
 //	h_scan tokens   stdout: one line per (package, value): String, Len, Precedence, IsOperator, IsLiteral, IsKeyword, Lookup
 package main
@@ -293,6 +299,167 @@ func oracle15(src []byte, comments bool, toks []tokT, status string) string {
 	return "ok"
 }
 
+
+// ---- the two cross-scanner properties, on the real scanners -----------------------------------
+
+var extTokens = map[int]bool{int(token.RAT): true, int(token.UNIT): true, int(token.CSTRING): true, int(token.PYSTRING): true,
+	int(token.QUESTION): true, int(token.DRARROW): true, int(token.SRARROW): true, int(token.BIDIARROW): true, int(token.ENV): true}
+
+func hasExt(toks []tokT, status string) bool {
+	if status != "" {
+		return true
+	}
+	for _, t := range toks {
+		if extTokens[t.tok] || (t.tok == int(token.COMMENT) && strings.HasPrefix(t.lit, "#")) {
+			return true
+		}
+	}
+	return false
+}
+
+func sameToks(a, b []tokT) bool {
+	if len(a) != len(b) {
+		return false
+	}
+	for i := range a {
+		if a[i] != b[i] {
+			return false
+		}
+	}
+	return true
+}
+
+func sameInts(a, b []int) bool {
+	if len(a) != len(b) {
+		return false
+	}
+	for i := range a {
+		if a[i] != b[i] {
+			return false
+		}
+	}
+	return true
+}
+
+func sameSet(a, b []int) bool {
+	m := map[int]int{}
+	for _, x := range a {
+		m[x] |= 1
+	}
+	for _, x := range b {
+		m[x] |= 2
+	}
+	for _, v := range m {
+		if v != 3 {
+			return false
+		}
+	}
+	return true
+}
+
+// C16: go/scanner's result against the XGo scanner's on the same input
+func verdictGo(src []byte, comments bool, gt []tokT, ge []int, gs string) string {
+	xc, _, xcs := scanAll(xgoInit, src, true, int(token.EOF))
+	if hasExt(xc, xcs) {
+		return "ext"
+	}
+	xt, xe, xs := scanAll(xgoInit, src, comments, int(token.EOF))
+	if xs != "" || gs != "" || !sameToks(xt, gt) {
+		return "diff-tokens"
+	}
+	if sameInts(xe, ge) {
+		return "eq"
+	}
+	if sameSet(xe, ge) {
+		return "eqset"
+	}
+	return "diff-errors"
+}
+
+// token kinds of the two packages are identified by String() (spelling / class name)
+var xgoToTpl = map[int]int{}
+var xgoOnly = map[int]bool{int(token.CSTRING): true, int(token.PYSTRING): true}
+var tplOnly = map[int]bool{int(tpltoken.TILDE): true, int(tpltoken.AT): true, int(tpltoken.POW): true}
+
+func init() {
+	byName := map[string]int{}
+	for v := 0; v <= 260; v++ {
+		s := tpltoken.Token(v).String()
+		if !strings.HasPrefix(s, "token(") {
+			if _, ok := byName[s]; !ok {
+				byName[s] = v
+			}
+		}
+	}
+	for v := 0; v <= 260; v++ {
+		x := token.Token(v)
+		s := x.String()
+		if strings.HasPrefix(s, "token(") {
+			continue
+		}
+		if x.IsKeyword() {
+			xgoOnly[v] = true
+		}
+		if t, ok := byName[s]; ok {
+			xgoToTpl[v] = t
+		} else {
+			xgoToTpl[v] = -1
+		}
+	}
+}
+
+// C32: tpl/scanner's result against the XGo scanner's on the same input
+func verdictTpl(src []byte, comments bool, tt []tokT, te []int, ts string) string {
+	xt, xe, xs := scanAll(xgoInit, src, comments, int(token.EOF))
+	v := ""
+	unshared := false
+	if ts == "" && xs == "" {
+		for _, t := range tt {
+			if tplOnly[t.tok] {
+				unshared = true
+			}
+		}
+		for _, t := range xt {
+			if xgoOnly[t.tok] {
+				unshared = true
+			}
+		}
+	}
+	switch {
+	case unshared:
+		v = "unshared"
+	case ts != "" || xs != "" || len(tt) != len(xt):
+		v = "diff"
+	default:
+		v = "eq"
+		for i := range xt {
+			m, ok := xgoToTpl[xt[i].tok]
+			if !ok || m != tt[i].tok || xt[i].pos != tt[i].pos || xt[i].lit != tt[i].lit {
+				v = "diff"
+				break
+			}
+		}
+		if v == "eq" && !sameInts(xe, te) {
+			v = "eqtok"
+		}
+	}
+	// the dimensions on which the two scanners are known to differ (explored by the fixed finding set)
+	for _, t := range xt {
+		e := t.pos + len(t.lit)
+		if t.tok == int(token.UNIT) && e < len(src) && (src[e] == ' ' || src[e] == '\t' || src[e] == '\r') {
+			v += " dim-unit"
+			break
+		}
+	}
+	if bytes.IndexByte(src, '#') >= 0 && (bytes.IndexByte(src, '\r') >= 0 || bytes.Contains(src, []byte("#*"))) {
+		v += " dim-sharp"
+	}
+	if bytes.Contains(src, []byte("*\r")) {
+		v += " dim-blockcr"
+	}
+	return v
+}
+
 func runCases() {
 	sc := bufio.NewScanner(os.Stdin)
 	sc.Buffer(make([]byte, 1<<20), 1<<26)
@@ -316,10 +483,10 @@ func runCases() {
 			fmt.Fprintf(w, "%s\t%s\n", render(toks, errs, st), oracle15(src, comments, toks, st))
 		case 'g':
 			toks, errs, st := scanAll(goInit, src, comments, int(gotoken.EOF))
-			fmt.Fprintf(w, "%s\t-\n", render(toks, errs, st))
+			fmt.Fprintf(w, "%s\t%s\n", render(toks, errs, st), verdictGo(src, comments, toks, errs, st))
 		case 't':
 			toks, errs, st := scanAll(tplInit, src, comments, int(tpltoken.EOF))
-			fmt.Fprintf(w, "%s\t-\n", render(toks, errs, st))
+			fmt.Fprintf(w, "%s\t%s\n", render(toks, errs, st), verdictTpl(src, comments, toks, errs, st))
 		default:
 			fmt.Fprintln(w, "BADCASE\t-")
 		}
